@@ -49,6 +49,7 @@ type Result struct {
 	IntSeen bool              `json:"int_seen,omitempty"`
 	Hist    []string          `json:"hist,omitempty"`
 	Rounds  int               `json:"rounds,omitempty"`
+	Line    string            `json:"line,omitempty"` // the final model input line (with oracle answers)
 }
 
 var evalTimeout = 5 * time.Second
@@ -386,6 +387,17 @@ func runEvalCase(c Case) (Result, string) {
 			}
 		}
 	}
+	// C10: EvalBytes rejects input that is not valid JSON (malformed variants of the input text)
+	if len(c.Input) > 0 && !o.paniced {
+		x := string(c.Input)
+		for _, bad := range []string{x + "]", x + "}", x + " x", x + ",", "[" + x, x + "\x00", x + "\n]", ""} {
+			bo := guarded(func() (interface{}, error) { return e.EvalBytes([]byte(bad)) })
+			if !bo.paniced && !bo.hung && bo.err == nil {
+				r.Direct["evalbytes"] = "EvalBytes accepted malformed input " + strconv.Quote(bad)
+				break
+			}
+		}
+	}
 	// C11: a JSON text denotes itself (oracle: encoding/json on the same text)
 	for _, t := range c.Tags {
 		if t == "jsonself" {
@@ -501,6 +513,8 @@ func answer(q string) (string, bool) {
 
 // runModel pipes lines through the extracted model, in parallel shards, answering oracle
 // queries until every case has a final answer.
+var finalLines = map[string]string{}
+
 func runModel(modelBin string, entry string, lines map[string]string, shards int) (map[string]string, map[string]int) {
 	final := map[string]string{}
 	rounds := map[string]int{}
@@ -565,6 +579,7 @@ func runModel(modelBin string, entry string, lines map[string]string, shards int
 					rounds[id]++
 				} else {
 					final[id] = res
+					finalLines[id] = pending[id]
 				}
 			}
 		}
@@ -658,6 +673,7 @@ func main() {
 	if *model != "" {
 		final, rounds := runModel(*model, "eval", lines, *shards)
 		pfinal, _ := runModel(*model, "parse", plines, *shards)
+		n := 0
 		for _, r := range results {
 			if m, ok := final[r.ID]; ok {
 				r.Model = m
@@ -665,6 +681,10 @@ func main() {
 			} else if m, ok := pfinal[r.ID]; ok {
 				r.Model = m
 			}
+			if n%37 == 0 || n < 3 {
+				r.Line = finalLines[r.ID]
+			}
+			n++
 		}
 	}
 	w := bufio.NewWriter(os.Stdout)
